@@ -76,6 +76,9 @@ func writeTag(w io.Writer, tagType byte, tagName string) error {
 		return err
 	}
 	bName := []byte(tagName)
+	if len(bName) > 1<<15-1 {
+		return errors.New("nbt: tag name is longer than 32767 bytes")
+	}
 	if err := writeInt16(w, int16(len(bName))); err != nil {
 		return err
 	}
